@@ -1,19 +1,20 @@
 import Lemmas.ExtractREq
 /-! # C19 — archive extraction reproduces the archive inside the destination only
 
-All theorems are about the definitions the model driver `drv_c19` executes (`Ex.tarExtract`, `Ex.zipExtract`,
-`Ex.tarOne`, `Ex.zipOne`, `Ex.lexOK`, `Ex.ensureNoSymlinks`, … of `Model/Extract.lean`); every check compares them with
-`xio/fs/tar.ExtractWithMask` / `xio/fs/zip.ExtractWithMask` on whole trees.
-
-Which model: the file-system model is *lexical* — a system call on a path looks the path up as written, a symbolic
-link is an opaque leaf.  `ensureNoSymlinks_spec`, `extract_wf` and `guard_makes_lexical` say why this is the kernel's
-reading at every call the extractors make: the extractors call the guard first, after the guard no component below
-the root is a link, and then kernel-style resolution (`Ex.resolve`, which follows links) returns the path itself.
+Two models.  The RESOLVING one (`Model/ExtractR.lean`: `Ex.walk` follows symbolic links as the kernel does;
+`Ex.tarExtractR`, `Ex.zipExtractR`) is what the model driver `drv_c19` executes and what every check compares with
+`xio/fs/tar` / `xio/fs/zip` on whole trees.  The LEXICAL one (`Model/Extract.lean`: a system call looks the path up as
+written, a symbolic link is an opaque leaf; `Ex.tarExtract`, `Ex.zipExtract`) is the one most theorems below are stated
+about; it is a proof device, linked to the executed model by `resolving_is_lexical` (equal whenever the guard is called
+and the destination is not below or itself a link).
 The driver executes the RESOLVING extractors `Ex.tarExtractR` / `Ex.zipExtractR` (`Model/ExtractR.lean`: the kernel
 follows links); `resolving_is_lexical` proves them equal to the lexical ones on every well-formed tree whose destination
 is not below a link, `extract_contained_resolving` & co. are the containment statements about them, and
 `guardless_escapes` shows that they need the guard.  Not modelled: permission bits (privileged process), `NAME_MAX` /
-`PATH_MAX` / NUL in names, a destination `/` (Go builds the prefix `//` and refuses every entry; all theorems assume
+`PATH_MAX` / NUL in names, node types other than directory / regular file / symbolic link (a PRE-EXISTING fifo, socket or
+device at an entry path: `OpenFile(O_WRONLY)` on a fifo without a reader blocks for ever — "returns an error" would be a
+hang), a destination below a LINKED ANCESTOR (run against the code, `dstlinkm` `dp:2…4`, no theorem: the real code and
+the resolving model extract into the physical place), a destination `/` (Go builds the prefix `//` and refuses every entry; all theorems assume
 `root ≠ []`), and the zip root test `fi.IsDir()` for a symlink-bit entry named `./` (the model refuses it at the
 containment check, Go passes the check and fails at `Symlink("", root)` — an error without effect in both).
 Quantification: every root whose text is a clean absolute path (`GoodPath`, what `filepath.Abs` returns), every
@@ -722,9 +723,12 @@ acts at its lexical path, so the two models coincide and every theorem of this f
 shows that WITHOUT the guard calls the same loops do write and link outside. -/
 
 /-- *with the guard, the resolving extractors are the lexical ones*: on every well-formed tree (every node's parent
-    is a directory — any real file-system tree, whatever links it contains) in which `/` and the proper prefixes of the
-    destination are directories and the destination itself is not a symbolic link (`RInv`; it may be missing, a
-    directory or a file), for every archive.  Proof: `EnsureNoSymlinks` with its `Lstat` calls is the lexical guard
+    is a directory — any real file-system tree, whatever links it contains) in which no proper prefix of the
+    destination is a file or a symbolic link (each is a directory or does not exist yet: a fresh `out/new/dst` is
+    covered, `MkdirAll` creates the parents) and the destination itself is not a symbolic link (`RInv`; it may be
+    missing, a directory or a file), for every archive.  A destination BELOW A LINKED ANCESTOR is outside: there the
+    real code and the resolving model extract into the physical place (area `dstlinkm`, `dp:2…4`), which the lexical
+    model cannot express — differential run only.  Proof: `EnsureNoSymlinks` with its `Lstat` calls is the lexical guard
     (`guardR_eq`); after it succeeded no component of the path is a link (`ensureNoSymlinks_spec`), so resolution is a
     look-up (`walk_lex`) and `os.MkdirAll`, `OpenFile`, `Symlink`, `Link` act where the lexical primitives act
     (`mkdirAllR_eq`, `openWriteR_eq`, `symlinkR_eq`, `linkR_eq`); the invariant is kept by every iteration. -/
@@ -741,13 +745,33 @@ theorem resolving_step_is_lexical (root : P) (hroot : root ≠ []) (hr : GoodPat
 
 /-- **containment on the resolving file system** (tar and zip; `..`, absolute names, links created by earlier
     entries, links that were there before): whatever the archive says, every path that is not at or below the
-    destination names the same node after the extraction as before.  This is the statement that depends on the guard:
+    destination names the same node after the extraction as before — except that ancestors of the destination that
+    did not exist may have been created, as directories, by `MkdirAll` (second clause; with all ancestors present,
+    `hex` is trivially true and nothing at all changes outside).  This is the statement that depends on the guard:
     it is false of the same loops without the guard calls (`guardless_escapes`). -/
 theorem extract_contained_resolving (root : P) (hroot : root ≠ []) (hr : GoodPath root) (hdr : NoDots root)
     (mask : Nat) (es : List Entry) (fs : FS) (hinv : RInv fs root) (q : P) (hq : ¬ root <+: q) :
-    (tarExtractR fs root mask es).1.get q = fs.get q ∧ (zipExtractR fs root mask es).1.get q = fs.get q := by
+    ((q <+: root → fs.get q ≠ none) →
+      (tarExtractR fs root mask es).1.get q = fs.get q ∧ (zipExtractR fs root mask es).1.get q = fs.get q) ∧
+    (fs.get q = none →
+      ((tarExtractR fs root mask es).1.get q = none ∨ ∃ m, (tarExtractR fs root mask es).1.get q = some (.dir m)) ∧
+      ((zipExtractR fs root mask es).1.get q = none ∨ ∃ m, (zipExtractR fs root mask es).1.get q = some (.dir m))) := by
   rw [tarExtractR_eq root hroot hr hdr mask es fs hinv, zipExtractR_eq root hroot hr hdr mask es fs hinv]
-  exact extract_contained root hr mask es fs hinv.anc q hq
+  have st := extractWith_sys root _ (fun fs e => tarOne_sys root hr fs mask e) fs es
+  have sz := extractWith_sys root _ (fun fs e => zipOne_sys root hr fs mask e) fs es
+  refine ⟨fun hex => ⟨st.outside' q hq hex, sz.outside' q hq hex⟩, fun hn => ?_⟩
+  by_cases hrel : q <+: root
+  · have hlen : q.length < root.length := by
+      rcases Nat.lt_or_ge q.length root.length with h | h
+      · exact h
+      · exfalso; apply hq; rw [hrel.eq_of_length_le h]; exact List.prefix_refl _
+    have e := List.prefix_iff_eq_take.mp hrel
+    have h1 := (hinv.tarRun hr hroot mask es).anc q.length hlen
+    have h2 := (hinv.zipRun hr hroot mask es).anc q.length hlen
+    rw [← e] at h1 h2
+    exact ⟨h1, h2⟩
+  · have hnr : ¬ Related root q := fun h => h.elim hrel hq
+    exact ⟨Or.inl ((st.frame q hnr).trans hn), Or.inl ((sz.frame q hnr).trans hn)⟩
 
 /-- **containment of contents and of hard links on the resolving file system**: a file (inode) that no path at or
     below the destination holds before the extraction has the same content and mode afterwards, and no such file
@@ -769,37 +793,7 @@ theorem extract_invariant_resolving (root : P) (hroot : root ≠ []) (hr : GoodP
     (mask : Nat) (es : List Entry) (fs : FS) (hinv : RInv fs root) :
     RInv (tarExtractR fs root mask es).1 root ∧ RInv (zipExtractR fs root mask es).1 root := by
   rw [tarExtractR_eq root hroot hr hdr mask es fs hinv, zipExtractR_eq root hroot hr hdr mask es fs hinv]
-  constructor
-  · refine ⟨(extract_wf root hr mask es fs hinv.wf).1, ?_, ?_⟩
-    · intro j hj
-      obtain ⟨m, hm⟩ := hinv.anc j hj
-      exact ⟨m, (extract_monotone root hr mask es fs _ _ hm).1⟩
-    · have : ∀ (es : List Entry) (fs : FS), RInv fs root → ∀ t, (tarExtract fs root mask es).1.get root ≠ some (.symlink t) := by
-        intro es
-        induction es with
-        | nil => intro fs h; exact h.rootNoLink
-        | cons x xs ih =>
-          intro fs h
-          rw [tarExtract_cons]
-          split
-          · exact ih _ (h.tarStep hr hroot mask x)
-          · exact (h.tarStep hr hroot mask x).rootNoLink
-      exact this es fs hinv
-  · refine ⟨(extract_wf root hr mask es fs hinv.wf).2, ?_, ?_⟩
-    · intro j hj
-      obtain ⟨m, hm⟩ := hinv.anc j hj
-      exact ⟨m, (extract_monotone root hr mask es fs _ _ hm).2⟩
-    · have : ∀ (es : List Entry) (fs : FS), RInv fs root → ∀ t, (zipExtract fs root mask es).1.get root ≠ some (.symlink t) := by
-        intro es
-        induction es with
-        | nil => intro fs h; exact h.rootNoLink
-        | cons x xs ih =>
-          intro fs h
-          rw [zipExtract_cons]
-          split
-          · exact ih _ (h.zipStep hr hroot mask x)
-          · exact (h.zipStep hr hroot mask x).rootNoLink
-      exact this es fs hinv
+  exact ⟨hinv.tarRun hr hroot mask es, hinv.zipRun hr hroot mask es⟩
 
 /-- `/`, the destination `/d`, and beside it `/e/` with the file `/e/v` (inode 0) -/
 def worldFs : FS :=
@@ -839,7 +833,7 @@ theorem guardless_escapes :
 
 /-- the hypotheses of the resolving theorems hold of that world -/
 example : RInv worldFs demoRoot := by
-  refine ⟨?_, ?_, ?_⟩
+  refine ⟨?_, ⟨0o755, by decide⟩, ?_, ?_⟩
   · intro p hp hl
     unfold FS.get worldFs at hp
     simp only [List.find?_cons, List.find?_nil] at hp
@@ -854,11 +848,35 @@ example : RInv worldFs demoRoot := by
           · simp at hp
   · intro j hj
     have : j = 0 := by simp [demoRoot] at hj; omega
-    subst this; exact ⟨0o755, by decide⟩
+    subst this; exact Or.inr ⟨0o755, by decide⟩
   · intro t h
     have : worldFs.get demoRoot = some (.dir 0o755) := by decide
     rw [this] at h; cases h
 example : demoRoot ≠ [] := by decide
+
+/-- … and of a fresh destination `/a/d` whose parent does not exist yet: `MkdirAll` creates `/a` and `/a/d` (with the
+    mode of the first call), outside them nothing changes -/
+example : RInv { nodes := [([], .dir 0o755)] } [[97], [100]] := by
+  refine ⟨?_, ⟨0o755, by decide⟩, ?_, ?_⟩
+  · intro p hp hl
+    unfold FS.get at hp
+    simp only [List.find?_cons, List.find?_nil] at hp
+    split at hp
+    · rename_i h; simp at h; (first | rw [h] at hl | rw [← h] at hl); simp at hl
+    · simp at hp
+  · intro j hj
+    have hj' : j < 2 := by simpa using hj
+    rcases Nat.lt_or_ge j 1 with h | h
+    · have : j = 0 := by omega
+      subst this; exact Or.inr ⟨0o755, by decide⟩
+    · have : j = 1 := by omega
+      subst this; exact Or.inl (by decide)
+  · intro t h
+    have : ({ nodes := [([], .dir 0o755)] } : FS).get [[97], [100]] = none := by decide
+    rw [this] at h; cases h
+example : (tarExtractR { nodes := [([], .dir 0o755)] } [[97], [100]] 0o750 [{ kind := .reg, name := [120], data := [1] }]).2 = true ∧
+    (tarExtractR { nodes := [([], .dir 0o755)] } [[97], [100]] 0o750 [{ kind := .reg, name := [120], data := [1] }]).1.get [[97]] =
+      some (.dir 0o750) := by decide
 
 /-! ### the new theorems are not vacuous -/
 
